@@ -184,7 +184,7 @@ fn catalogue() -> Vec<(&'static str, Vec<&'static str>, u64)> {
         ("VectorClockDSTHarness", vec!["calm", "moderate", "chaos"], 200),
         ("MultiNodeSimulation.broadcast", vec!["lossless", "lossy", "burst"], 120),
         ("MultiNodeSimulation.partitioned", vec!["lossless", "lossy", "burst"], 120),
-        ("run_partition_test", vec!["isolate_node", "split_brain", "asymmetric", "ring", "ring_heavy", "split_heavy"], 50),
+        ("run_partition_test", vec!["isolate_node", "split_brain", "asymmetric", "ring", "ring_heavy", "split_heavy", "mutual3_heavy"], 50),
         ("DSTSimulation", vec!["new", "calm", "chaos"], 400),
         ("RedisDSTSimulation", vec!["zipfian", "uniform", "zipfian+chaos-faults"], 120),
         ("Simulation", vec!["reliable", "drop30", "partition"], 60),
@@ -498,13 +498,15 @@ fn run_case(h: &str, p: &str, s: u64, ops: u64) -> Dump {
             let (nodes, cfg) = match p {
                 "ring_heavy" => (5, PartitionConfig::ring(5)),
                 "split_heavy" => (5, PartitionConfig::split_brain(vec![0, 1], vec![2, 3, 4])),
+                "mutual3_heavy" => (3, PartitionConfig { partitioned_pairs: vec![(0, 1), (0, 2), (1, 2)], description: "three mutually isolated nodes".to_string() }),
                 _ => (nodes, cfg),
             };
             // the heavy presets: very unequal amounts of history behind the partition (1, 8 and 30 keys), then two writers
             // racing on one key right after the heal - the winner depends on every node's clock, i.e. on everything the heal did
             let heavy = p.ends_with("_heavy");
             let names: Vec<String> = (0..30).map(|i| format!("hk{}", i)).collect();
-            let mut during: Vec<(usize, &str, &str)> = vec![(0, "key1", "from0"), (nodes - 1, "key1", "fromlast"), (1, "key2", "c")];
+            // (the harness reports final values for the first key named)
+            let mut during: Vec<(usize, &str, &str)> = if heavy { vec![(0, "race", "initial"), (nodes - 1, "key1", "fromlast"), (1, "key2", "c")] } else { vec![(0, "key1", "from0"), (nodes - 1, "key1", "fromlast"), (1, "key2", "c")] };
             if heavy {
                 during.extend(names.iter().take(8).map(|k| (1usize, k.as_str(), "eight")));
                 during.extend(names.iter().map(|k| (nodes - 1, k.as_str(), "thirty")));
